@@ -61,7 +61,14 @@ pub fn header_fields(h: &MessageHeader) -> String {
 pub fn msg_result_str(r: &MessageResult) -> String {
     match r {
         Err(e) => format!("err {}", err_str(e)),
-        Ok(Message::EndOfMessage) => "eom".to_owned(),
+        // documented: error and voting counts are not tracked for EndOfMessage (both accessors return 0)
+        Ok(m @ Message::EndOfMessage) => {
+            if m.parity_error_count() == 0 && m.voting_byte_count() == 0 && m.as_str() == "NNNN" {
+                "eom".to_owned()
+            } else {
+                format!("eom-with-counts {} {} {}", m.parity_error_count(), m.voting_byte_count(), m.as_str())
+            }
+        }
         Ok(Message::StartOfMessage(h)) => format!("som {}", header_fields(h)),
     }
 }
